@@ -34,6 +34,9 @@
 use std::cmp;
 use std::mem::{self, MaybeUninit};
 use std::ptr;
+#[cfg(nucleo_verif)]
+use crate::verif::atomic::{self, AtomicBool};
+#[cfg(not(nucleo_verif))]
 use std::sync::atomic::{self, AtomicBool};
 
 /// When dropped, copies from `src` into `dest`.
